@@ -63,6 +63,12 @@ def gen_pair(rng, tier):
         pos = rng.choice([k, k + 1])
         right["cols"].insert(pos, extra)
     by = [[a, b] for a, b in zip(lnames, rnames)]
+    if renamed and k == 2 and rng.random() < 0.25 and right["cols"][1]["name"] == rnames[1]:
+        # the SAME left column compared with two right columns (`by=[("id", "owner"), ("id", "payer")]`): both equalities hold
+        # for a match
+        right["cols"][1] = {"name": rnames[1], "kind": left["cols"][0]["kind"] if right["cols"][0]["kind"] == left["cols"][0]["kind"] else right["cols"][0]["kind"],
+                            "vals": [rng.choice(right["cols"][0]["vals"] + pools[0]) if nr else None for _ in range(nr)]}
+        by = [[lnames[0], rnames[0]], [lnames[0], rnames[1]]]
     return left, right, by
 
 
